@@ -470,7 +470,7 @@ def gen_c01(ctx):
       yield mk_c01(rng, metric, cfg, copy.deepcopy(shards), api='object')
       yield mk_c01(rng, metric, cfg, copy.deepcopy(shards), api='aggfn')
   # random
-  for _ in range(500 if ctx.quick else 12000):
+  for _ in range(500 if ctx.quick else 50000):
     metric = rng.choice(['ngrams', 'ngrams', 'patterns'])
     cfg = gen_cfg(rng, metric)
     shards = [gen_batches(rng, metric) for _ in range(rng.randrange(1, 5))]
@@ -479,7 +479,7 @@ def gen_c01(ctx):
 
 def gen_laws(ctx):
   rng = ctx.rng
-  for _ in range(150 if ctx.quick else 3000):
+  for _ in range(150 if ctx.quick else 12000):
     metric = rng.choice(['ngrams', 'ngrams', 'patterns'])
     cfg = gen_cfg(rng, metric)
     yield dict(kind='laws', metric=metric, cfg=cfg, api=rng.choice(['object', 'aggfn']),
@@ -540,11 +540,11 @@ def gen_c07(ctx):
     for dup in (True, False):
       yield dict(kind='c07', metric='patterns', cfg=dict(patterns=['a', 'aa', 'ab', ''][: 1 + i % 4], dup=dup),
                  api='object', batches=[[t, ptexts[(i * 7) % len(ptexts)]]])
-  for _ in range(500 if ctx.quick else 12000):
+  for _ in range(500 if ctx.quick else 50000):
     metric = rng.choice(['ngrams', 'ngrams', 'patterns'])
     yield dict(kind='c07', metric=metric, cfg=gen_cfg(rng, metric), api=rng.choice(['object', 'aggfn']),
                batches=gen_batches(rng, metric))
-  for _ in range(60 if ctx.quick else 1500):
+  for _ in range(60 if ctx.quick else 6000):
     yield dict(kind='avgalpha', metric='avgalpha', texts=[gen_text(rng) for _ in range(rng.randrange(1, 6))])
   yield dict(kind='avgalpha', metric='avgalpha', texts=[])
 
@@ -789,16 +789,26 @@ def oracle_c07(case, obs):
   whole = flat(case['batches'])
   want = spec_rows(metric, cfg, whole)
   res, call, fn = o[-3], o[-2], o[-1]
-  if not same(res, want):
+
+  def agrees(got, want):
+    # TopKWordNGrams documents its order completely (frequency, then alphabetical): compare as lists.
+    # PatternFrequency documents no order at all: compare as a pattern -> frequency table.
+    if metric == 'ngrams':
+      return same(got, want)
+    return same(sorted(got, key=lambda r: _str_key(r[0])), sorted(want, key=lambda r: _str_key(r[0])))
+
+  if not agrees(res, want):
     return f'accumulator result {res} != definition {want}'
-  if not same(call, want):
+  if not agrees(call, want):
     return f'AggregateFn.__call__ {call} != definition {want}'
-  if not same(fn, want):
+  if not agrees(fn, want):
     return f'one-shot function {fn} != definition {want}'
+  if not (same(call, res) and same(fn, res)):
+    return f'the three APIs disagree: result() {res}, AggregateFn.__call__ {call}, function {fn}'
   for op, x in zip(prog, o):
     if op[0] == 'add' and x is not None:
       w = spec_rows(metric, cfg, op[2])
-      if not same(x, w):
+      if not agrees(x, w):
         return f'add() returned {x} for the batch {op[2]}, definition gives {w}'
   return None
 
@@ -962,7 +972,7 @@ class C11:
   def gen_cases(ctx):
     yield from counted(ctx, 'C11', _corpus(ctx, 'C11'))
     yield from counted(ctx, 'C11', gen_laws(ctx))
-    yield from counted(ctx, 'C11', gen_prog(ctx, 400 if ctx.quick else 10000))
+    yield from counted(ctx, 'C11', gen_prog(ctx, 400 if ctx.quick else 40000))
     yield from counted(ctx, 'C11', gen_malformed(ctx, 'C11', 50 if ctx.quick else 1000))
 
 
